@@ -437,6 +437,37 @@ func main() {
 		}
 		return ""
 	})
+	// ---- validation.go: the error messages (format strings) of each validator function, in source order
+	if vf := files["internal/configuration/validation.go"]; vf != nil {
+		for _, d := range vf.Decls {
+			fd, ok := d.(*ast.FuncDecl)
+			if !ok || fd.Body == nil {
+				continue
+			}
+			var msgs []string
+			ast.Inspect(fd.Body, func(n ast.Node) bool {
+				ce, ok := n.(*ast.CallExpr)
+				if !ok {
+					return true
+				}
+				if cn := callName(ce); (cn == "fmt.Errorf" || cn == "errors.New") && len(ce.Args) > 0 {
+					if bl, ok := ce.Args[0].(*ast.BasicLit); ok {
+						m := strings.Trim(bl.Value, "\"`")
+						if len(m) > 60 {
+							m = m[:60]
+						}
+						msgs = append(msgs, m)
+					}
+				}
+				return true
+			})
+			if len(msgs) > 0 {
+				facts.Sequences["validation:"+fd.Name.Name] = msgs
+			}
+		}
+	} else {
+		facts.Broken = append(facts.Broken, "missing internal/configuration/validation.go")
+	}
 	for _, c := range []struct{ file, fn string }{{"cmd/fan/reset.go", ""}, {"cmd/fan/init.go", ""}} {
 		// CLI bodies re-stated in the harness: record their persistence / init calls
 		fs := parseDir(root, filepath.Dir(c.file))
